@@ -21,7 +21,7 @@ RULE = (
 )
 TIERS = {"quick": {"shards": 8, "n": 900, "budget_s": 200}, "thorough": {"shards": 16, "n": 12000, "budget_s": 2700}}
 FLOOR = {"quick": 200, "thorough": 10000}
-REQUIRED_LABELS = {"quick": ["kind:literal", "kind:optint", "d:bool", "d:neg-int"], "thorough": []}
+REQUIRED_LABELS = {"quick": ["kwargs-param:not-last", "kind:literal", "kind:optint", "d:bool", "d:neg-int"], "thorough": []}
 ASSUMPTIONS = [
     "exec'ing emitted code is safe because the interface contains only literals and names of our own vocabulary",
     "pydantic's BaseModel is stubbed by `object` (pydantic itself is not a dependency of the repository)",
@@ -41,7 +41,24 @@ def init_worker(ctx):
     hops.load()
 
 
+@st.composite
+def with_kwargs_param(draw, base):
+    """a parameter whose name ends in `kwargs` (emitted as **<name> by the function emitter) at ANY position"""
+    case = draw(base)
+    if draw(st.integers(0, 2)) == 0:
+        nm = draw(st.sampled_from(["kwargs", "loader_kwargs", "extra_kwargs"]))
+        if nm not in [n for n, _p in case["params"]]:
+            i = draw(st.integers(0, len(case["params"])))
+            case["params"].insert(i, [nm, {"typ": "Optional[dict]", "doc": "extra keyword arguments"}])
+            case["kinds"].insert(i, "kwargs")
+    return case
+
+
 def strategy(ctx):
+    return with_kwargs_param(_strategy())
+
+
+def _strategy():
     return st.one_of(
         gen_ir.interface("executable", min_params=1, max_params=6, returns=False),
         gen_ir.interface("executable", min_params=1, max_params=6, returns=False, doc=gen_ir.mixed_descr, name_strategy=gen_ir.rich_names),
@@ -121,11 +138,18 @@ def check_cell(r, case, cell):
             r.fail("symbol", "%s function foo not defined" % tag)
             return
         sig = inspect.signature(f)
-        if list(sig.parameters) != [n for n, _p in ps]:
-            r.fail("sig-names", "%s %s" % (tag, list(sig.parameters)))
+        # a `...kwargs` entry is the function's **kwargs: Python puts it last; every other name keeps its described order
+        kw_names = [n for n, _p in ps if n.endswith("kwargs")]
+        want_order = [n for n, _p in ps if not n.endswith("kwargs")] + kw_names
+        if list(sig.parameters) != want_order:
+            r.fail("sig-names", "%s signature %s, described %s" % (tag, list(sig.parameters), want_order))
             return
         for n, p in ps:
             sp = sig.parameters[n]
+            if n in kw_names:
+                if sp.kind != sp.VAR_KEYWORD:
+                    r.fail("sig-kind", "%s %s should be **%s, is %s" % (tag, n, n, sp.kind))
+                continue
             if (sp.kind == sp.KEYWORD_ONLY) != bool(kw.get("emit_as_kwonlyargs")):
                 r.fail("sig-kind", "%s %s is %s" % (tag, n, sp.kind))
             # documented normalisation: a parameter without default is shown as '=None'
@@ -220,6 +244,8 @@ def oracle(case):
     for cell in case.get("cells") or CELLS:
         check_cell(r, case, tuple(cell))
     r.label(*gen_ir.labels_of(case))
+    if "kwargs" in case["kinds"]:
+        r.label("kwargs-param", "kwargs-param:" + ("last" if case["kinds"][-1] == "kwargs" else "not-last"))
     ps = [p for _n, p in case["params"]]
     r.nontrivial = any("default" in p for p in ps) and any(is_optional(p["typ"]) or "Literal" in p["typ"] for p in ps)
     return r
